@@ -496,9 +496,10 @@ def nd_ops(axes):
 
         return f
 
-    def bc(ax, kind, line, scalar, kw):
+    def bc(ax, kind, line, scalar, kw, negative=False):
         def f():
-            M = H.get_BC(axis=ax, kind=kind, line=line, scalar=scalar, **kw)
+            # negative=True: the same direction addressed by its negative index, as the interface allows
+            M = H.get_BC(axis=ax - nd if negative else ax, kind=kind, line=line, scalar=scalar, **kw)
             n = shape[ax]
             B = np.zeros((n, n), dtype=complex)
             B[line, :] = np.asarray(one[ax].get_BC(kind, **kw))
@@ -521,8 +522,11 @@ def nd_ops(axes):
                 for scalar in (False, True):
                     ops.append((f'BC[{ax},{kind},{kw.get("x", "")},line=-1,scalar={scalar}]', bc(ax, kind, -1, scalar, kw)))
             ops.append((f'BC[{ax},dirichlet,0,line=0]', bc(ax, 'dirichlet', 0, False, {'x': 0})))
+            for scalar in (False, True):
+                ops.append((f'BC[{ax - nd} (negative index),dirichlet,1,line=-1,scalar={scalar}]', bc(ax, 'dirichlet', -1, scalar, {'x': 1}, negative=True)))
         else:
             ops.append((f'BC[{ax},integral,line=0]', bc(ax, 'integral', 0, False, {})))
+            ops.append((f'BC[{ax - nd} (negative index),integral,line=0]', bc(ax, 'integral', 0, False, {}, negative=True)))
             if n % 2 == 0:
                 ops.append((f'BC[{ax},nyquist,line={n // 2},scalar=True]', bc(ax, 'nyquist', n // 2, True, {})))
 
